@@ -1,31 +1,39 @@
 #!/usr/bin/env python3
-"""Regenerates lean/MdIt/Gen/Consts.lean from /repo's CURRENT source (DESIGN.md §5.1).
+"""Regenerates lean/MdIt/Gen/Consts.lean from /repo's CURRENT source (DESIGN.md §5.1) and
+checks the code shape around every constant / pattern the models were written for.
 
-Every extraction is a regex with an anchor assertion; an unrecognised shape prints
-`TIE-BROKEN <what>` and exits 1 (the check then treats the tie as broken).
-The file is rewritten only when its content changes so that lake's cache stays valid.
+Every extraction is a regex with an anchor assertion.  The result of every anchor is written to
+work/extract_status.json as {anchor, ok, props, detail}; ./check treats a failed anchor as a broken
+tie for exactly the properties it serves (`TIE-BROKEN <anchor>`).  The generated Lean file is
+rewritten only when its content changes so that lake's cache stays valid.  The extractor never
+interprets control flow — that is the correspondence's job.
 """
-import re, os, sys
+import re, os, sys, json, glob
 
 REPO = os.environ.get('MDIT_REPO', '/repo')
-OUT = os.path.join(os.path.dirname(os.path.abspath(__file__)), '..', 'lean', 'MdIt', 'Gen', 'Consts.lean')
-broken = []
+HERE = os.path.dirname(os.path.abspath(__file__))
+OUT = os.path.join(HERE, '..', 'lean', 'MdIt', 'Gen', 'Consts.lean')
+STATUS = os.path.join(HERE, '..', 'work', 'extract_status.json')
+status = []
+defs = []
 
 
 def src(rel):
     try:
         return open(os.path.join(REPO, rel), encoding='utf-8').read()
     except OSError:
-        broken.append('missing file ' + rel)
         return ''
 
 
-def need(pattern, text, what, flags=re.S):
+def anchor(name, props, pattern, text, flags=re.S):
     m = re.search(pattern, text, flags)
-    if not m:
-        broken.append(what)
-        return None
+    status.append(dict(anchor=name, ok=bool(m), props=props, detail='' if m else 'shape not recognised'))
     return m
+
+
+def expect(name, props, cond, detail):
+    status.append(dict(anchor=name, ok=bool(cond), props=props, detail='' if cond else detail))
+    return cond
 
 
 def lean_nat_list(xs):
@@ -33,51 +41,168 @@ def lean_nat_list(xs):
 
 
 def rust_str_bytes(lit):
-    """bytes of a Rust (raw or plain) string literal body; only the escapes used in this crate"""
-    out = []
-    i = 0
+    out, i = [], 0
     while i < len(lit):
         c = lit[i]
         if c == '\\' and i + 1 < len(lit):
-            n = lit[i + 1]
             mp = {'n': 10, 'r': 13, 't': 9, '\\': 92, '"': 34, "'": 39, '0': 0}
-            if n in mp:
-                out.append(mp[n]); i += 2; continue
+            if lit[i + 1] in mp:
+                out.append(mp[lit[i + 1]]); i += 2; continue
         out += list(c.encode('utf-8'))
         i += 1
     return out
 
 
-defs = []
+ALL = ['C%02d' % i for i in range(1, 21)]
 
-# ---- mdurl: AsciiSet::new constant, DIGITS, safe set of normalize_link
+# ------------------------------------------------------------------ mdurl (C17, C04)
 asciiset = src('src/common/mdurl/asciiset.rs')
-m = need(r'pub const fn new\(\) -> Self \{\s*Self\((0x[0-9a-fA-F_]+)\)', asciiset, 'asciiset.rs: AsciiSet::new constant')
-if m:
-    defs.append('def asciiNew : Nat := %d' % int(m.group(1).replace('_', ''), 16))
-need(r'pub const fn has\(&self, byte: u8\) -> bool \{\s*self\.0 & 1 << byte != 0\s*\}', asciiset, 'asciiset.rs: has() shape')
-need(r'pub const fn add\(&self, byte: u8\) -> Self \{\s*Self\(self\.0 \| 1 << byte\)\s*\}', asciiset, 'asciiset.rs: add() shape')
+m = anchor('asciiset.new', ['C17', 'C04'], r'pub const fn new\(\) -> Self \{\s*Self\((0x[0-9a-fA-F_]+)\)', asciiset)
+defs.append('def asciiNew : Nat := %d' % (int(m.group(1).replace('_', ''), 16) if m else 0))
+anchor('asciiset.has', ['C17', 'C04'], r'pub const fn has\(&self, byte: u8\) -> bool \{\s*self\.0 & 1 << byte != 0\s*\}', asciiset)
+anchor('asciiset.add', ['C17', 'C04'], r'pub const fn add\(&self, byte: u8\) -> Self \{\s*Self\(self\.0 \| 1 << byte\)\s*\}', asciiset)
 encode = src('src/common/mdurl/encode.rs')
-m = need(r'const DIGITS\s*:\s*&\[\s*u8;\s*16\s*\]\s*=\s*b"([^"]*)";', encode, 'encode.rs: DIGITS table')
-if m:
-    defs.append('def digits : List Nat := ' + lean_nat_list(rust_str_bytes(m.group(1))))
+m = anchor('encode.DIGITS', ['C17', 'C04'], r'const DIGITS\s*:\s*&\[\s*u8;\s*16\s*\]\s*=\s*b"([^"]*)";', encode)
+defs.append('def digits : List Nat := ' + lean_nat_list(rust_str_bytes(m.group(1)) if m else []))
 main = src('src/parser/main.rs')
-m = need(r'fn normalize_link\(str: &str\) -> String \{\s*const ASCII : AsciiSet = AsciiSet::from\(r#"([^"]*)"#\);\s*mdurl::encode\(str, ASCII, (true|false)\)\s*\}', main, 'main.rs: normalize_link shape')
+m = anchor('main.normalize_link', ['C17', 'C04'], r'fn normalize_link\(str: &str\) -> String \{\s*const ASCII : AsciiSet = AsciiSet::from\(r#"([^"]*)"#\);\s*mdurl::encode\(str, ASCII, (true|false)\)\s*\}', main)
+defs.append('def safeChars : List Nat := ' + lean_nat_list(rust_str_bytes(m.group(1)) if m else []))
+defs.append('def normalizeKeepEscaped : Bool := ' + (m.group(2) if m else 'false'))
+
+# ------------------------------------------------------------------ regex literals the hand matchers were written for
+PATTERNS = [
+    ('main.BAD_PROTO_RE', ['C04'], 'src/parser/main.rs', r'BAD_PROTO_RE[^;]*?Regex::new\(r#"(.*?)"#\)', '(?i)^(vbscript|javascript|file|data):'),
+    ('main.GOOD_DATA_RE', ['C04'], 'src/parser/main.rs', r'GOOD_DATA_RE[^;]*?Regex::new\(r#"(.*?)"#\)', '(?i)^data:image/(gif|png|jpeg|webp);'),
+    ('utils.UNESCAPE_MD_RE', ['C12', 'C04'], 'src/common/utils.rs', r'const UNESCAPE_MD_RE : &str = r##"(.*?)"##;', r'''\\([!"#$%&'()*+,\-./:;<=>?@\[\\\]^_`{|}~])'''),
+    ('utils.ENTITY_RE', ['C12', 'C04'], 'src/common/utils.rs', r'const ENTITY_RE\s*: &str = r##"(.*?)"##;', '&([A-Za-z#][A-Za-z0-9]{1,31});'),
+    ('utils.DIGITAL_ENTITY_TEST_RE', ['C12'], 'src/common/utils.rs', r'DIGITAL_ENTITY_TEST_RE[^;]*?Regex::new\(r#"(.*?)"#\)', '(?i)^&#(x[a-f0-9]{1,6}|[0-9]{1,7});$'),
+    ('entity.DIGITAL_RE', ['C12'], 'src/plugins/cmark/inline/entity.rs', r'DIGITAL_RE[^;]*?Regex::new\("(.*?)"\)', '(?i)^&#((?:x[a-f0-9]{1,6}|[0-9]{1,7}));'),
+    ('entity.NAMED_RE', ['C12'], 'src/plugins/cmark/inline/entity.rs', r'NAMED_RE[^;]*?Regex::new\("(.*?)"\)', '(?i)^&([a-z][a-z0-9]{1,31});'),
+    ('utils.SPACE_RE', ['C13'], 'src/common/utils.rs', r'SPACE_RE[^;]*?Regex::new\(r"(.*?)"\)', r'\s+'),
+    ('autolink.AUTOLINK_RE', ['C04'], 'src/plugins/cmark/inline/autolink.rs', r'AUTOLINK_RE[^;]*?Regex::new\(r"(.*?)"\)', r'^([a-zA-Z][a-zA-Z0-9+.\-]{1,31}):([^<>\x00-\x20]*)$'),
+]
+pat_defs = []
+for name, props, rel, rx, want in PATTERNS:
+    m = re.search(rx, src(rel), re.S)
+    got = m.group(1) if m else None
+    expect(name, props, got == want, 'pattern in source is %r, the hand matcher models %r' % (got, want))
+    pat_defs.append('def %s : List Nat := %s' % ('pat_' + name.replace('.', '_'), lean_nat_list(list((got or '').encode('utf-8')))))
+defs += pat_defs
+
+# ------------------------------------------------------------------ text scanner stop set, two copies (C08, C12)
+skip = src('src/parser/inline/builtin/skip_text.rs')
+arms = re.findall(r"'\\n' \| '!' \| '#' \| '\$' \| '%' \| '&' \| '\*' \| '\+' \| '-' \|\s*':' \| '<' \| '=' \| '>' \| '@' \| '\[' \| '\\\\' \| '\]' \| '\^' \|\s*'_' \| '`' \| '\{' \| '\}' \| '~'", skip)
+expect('skip_text.stopset_two_copies', ['C08', 'C12'], len(arms) == 2, 'expected the 23-character stop set twice (SkipPunct arm and choose_text_impl), found %d' % len(arms))
+defs.append('def textStop : List Nat := ' + lean_nat_list([10] + [ord(c) for c in '!#$%&*+-:<=>@[\\]^_`{}~']))
+
+# ------------------------------------------------------------------ escapable set of the escape rule (C12)
+esc = src('src/plugins/cmark/inline/escape.rs')
+m = anchor('escape.escapable_arm', ['C12'], r"let content_str = match chr \{\s*((?:'[^']+'|'\\\\'|'\\''|\s|\|)+?)=> chr\.into\(\),", esc)
+chars = []
 if m:
-    defs.append('def safeChars : List Nat := ' + lean_nat_list(rust_str_bytes(m.group(1))))
-    defs.append('def normalizeKeepEscaped : Bool := ' + m.group(2))
+    for tok in re.findall(r"'(\\\\|\\'|[^'])'", m.group(1)):
+        chars.append({'\\\\': '\\', "\\'": "'"}.get(tok, tok))
+defs.append('def escapable : List Nat := ' + lean_nat_list(sorted(ord(c) for c in chars)))
+expect('escape.escapable_is_32_punct', ['C12'], sorted(chars) == sorted('!"#$%&\'()*+,-./:;<=>?@[\\]^_`{|}~'), 'escapable set in escape.rs is %r' % ''.join(sorted(chars)))
 
-if broken:
-    for b in broken:
-        print('TIE-BROKEN ' + b)
-    sys.exit(1)
+# ------------------------------------------------------------------ valid entity code ranges (C12)
+utils = src('src/common/utils.rs')
+anchor('utils.is_valid_entity_code', ['C12'], r'if code >= 0xD800 && code <= 0xDFFF \{ return false; \}.*?if code >= 0xFDD0 && code <= 0xFDEF \{ return false; \}\s*if \(code & 0xFFFF\) == 0xFFFF \|\| \(code & 0xFFFF\) == 0xFFFE \{ return false; \}.*?if code <= 0x08 \{ return false; \}\s*if code == 0x0B \{ return false; \}\s*if code >= 0x0E && code <= 0x1F \{ return false; \}\s*if code >= 0x7F && code <= 0x9F \{ return false; \}.*?if code > 0x10FFFF \{ return false; \}\s*true', utils)
 
+# ------------------------------------------------------------------ misc constants
+m = anchor('main.max_nesting_default', ['C02'], r'max_nesting:\s*(\d+),', main)
+defs.append('def maxNestingDefault : Nat := ' + (m.group(1) if m else '0'))
+smap = src('src/common/sourcemap.rs')
+m = anchor('sourcemap.checkpoint', ['C15'], r'if column % (\d+) == 0 && column > 0 \{\s*marks\.push', smap)
+defs.append('def checkpointEvery : Nat := ' + (m.group(1) if m else '0'))
+anchor('sourcemap.get_position', ['C15'], r'let byte_offset = byte_offset \+ 1;.*?binary_search_by\(\|mark\| mark\.offset\.cmp\(&byte_offset\)\) \{\s*Ok\(x\) => x,\s*Err\(x\) => x - 1,', smap)
+
+# ------------------------------------------------------------------ nesting level sites (C02): is the level raised around each recursive call?
+def raised(text, call):
+    """every occurrence of `call` is directly preceded by `state.level += 1;` and followed by `state.level -= 1;`"""
+    occ = [mm.start() for mm in re.finditer(re.escape(call), text)]
+    if not occ:
+        return None
+    ok = True
+    for o in occ:
+        before = text[max(0, o - 120):o]
+        after = text[o:o + 160]
+        if not (re.search(r'state\.level \+= 1;\s*(?:state\.\w+ = [^;]+;\s*)*$', before) and re.search(r'state\.level -= 1;', after)):
+            ok = False
+    return ok
+sites = {
+    'quote': raised(src('src/plugins/cmark/block/blockquote.rs'), 'state.md.block.tokenize(state);'),
+    'listItem': raised(src('src/plugins/cmark/block/list.rs'), 'state.md.block.tokenize(state);'),
+    'linkLabel': raised(src('src/generics/inline/full_link.rs'), 'state.md.inline.tokenize(state);'),
+    'skipRule': raised(src('src/parser/inline/mod.rs'), 'ok = rule(state, true);'),
+}
+lst = src('src/plugins/cmark/block/list.rs')
+sites['listOuter'] = bool(re.search(r'let old_node = std::mem::replace\(&mut state\.node, new_node\);\s*state\.level \+= 1;', lst) and re.search(r'// Finalize list\s*state\.level -= 1;', lst))
+for k, v in sites.items():
+    expect('levelsite.' + k, ['C02', 'C01'], v is not None, 'recursive call site not found')
+defs.append('/-- increment applied to the nesting level around each recursive call site (static scan) -/\n'
+            'def levelSites : List (String × Nat) := [' + ', '.join('("%s", %d)' % (k, 1 if v else 0) for k, v in sorted(sites.items())) + ']')
+inl = src('src/parser/inline/mod.rs')
+anchor('inline.skip_token_overlimit', ['C01', 'C02'], r'state\.pos = state\.pos_max;\s*state\.cache\.insert\(pos, state\.pos\);\s*return;', inl)
+anchor('inline.tokenize_guard', ['C02'], r'if state\.level < state\.md\.max_nesting \{', inl)
+anchor('block.tokenize_guard', ['C02'], r'if state\.level >= state\.md\.max_nesting \{\s*state\.line = state\.line_max;\s*break;', src('src/parser/block/mod.rs'))
+
+# ------------------------------------------------------------------ raw sinks (C03): who calls text_raw, who constructs html nodes, who registers them
+raw_users, html_ctors = [], []
+for f in sorted(glob.glob(os.path.join(REPO, 'src', '**', '*.rs'), recursive=True)):
+    rel = os.path.relpath(f, REPO)
+    t = open(f, encoding='utf-8').read()
+    t_nocomment = re.sub(r'//.*', '', t)
+    if rel not in ('src/parser/renderer.rs', 'src/verif_hooks.rs') and re.search(r'\.text_raw\(', t_nocomment):
+        raw_users.append(rel)
+    if re.search(r'Node::new\(Html(Block|Inline)\s*\{', t_nocomment):
+        html_ctors.append(rel)
+expect('rawsinks.text_raw_callers', ['C03'], raw_users == ['src/plugins/html/html_block.rs', 'src/plugins/html/html_inline.rs'], 'text_raw is called from %r' % raw_users)
+expect('rawsinks.html_node_constructors', ['C03'], html_ctors == ['src/plugins/html/html_block.rs', 'src/plugins/html/html_inline.rs'], 'Html nodes are constructed in %r' % html_ctors)
+cm = src('src/plugins/cmark/mod.rs') + src('src/plugins/extra/mod.rs') + src('src/plugins/sourcepos.rs') + src('src/parser/block/builtin/mod.rs') + src('src/parser/inline/builtin/mod.rs')
+expect('rawsinks.html_only_via_html_plugin', ['C03'], not re.search(r'html::|html_block|html_inline|HtmlBlock|HtmlInline', re.sub(r'//.*', '', cm)), 'a non-html plugin module mentions the html rules')
+defs.append('def rawSinkFiles : List String := [' + ', '.join('"%s"' % r for r in raw_users) + ']')
+
+# ------------------------------------------------------------------ renderer shape (C03, C19)
+rend = src('src/parser/renderer.rs')
+anchor('renderer.make_attr', ['C03', 'C19'], r"self\.result\.push\(' '\);\s*self\.result\.push_str\(&escape_html\(name\)\);\s*self\.result\.push\('='\);\s*self\.result\.push\('\"'\);\s*self\.result\.push_str\(&escape_html\(value\)\);\s*self\.result\.push\('\"'\);", rend)
+anchor('renderer.text_escapes', ['C03', 'C19'], r'fn text\(&mut self, text: &str\) \{\s*self\.result\.push_str\(&escape_html\(text\)\);', rend)
+anchor('renderer.cr', ['C03', 'C19'], r"match self\.result\.as_bytes\(\)\.last\(\) \{\s*Some\(b'\\n'\) \| None => \{\}\s*Some\(_\) => self\.result\.push\('\\n'\)", rend)
+anchor('renderer.nul', ['C19'], r"input\.replace\('\\0', \"\\u\{FFFD\}\"\)", rend)
+anchor('utils.escape_html', ['C03', 'C19'], r'pub fn escape_html\(str: &str\) -> Cow<str> \{\s*html_escape::encode_double_quoted_attribute\(str\)', utils)
+
+# ------------------------------------------------------------------ interior mutability reachable from &MarkdownIt (C07): only the known cells
+cells = []
+for f in sorted(glob.glob(os.path.join(REPO, 'src', '**', '*.rs'), recursive=True)):
+    rel = os.path.relpath(f, REPO)
+    if rel == 'src/verif_hooks.rs':
+        continue
+    t = re.sub(r'//.*', '', open(f, encoding='utf-8').read())
+    t = re.sub(r'#\[cfg\(test\)\].*', '', t, flags=re.S)
+    for mm in re.finditer(r'\b(OnceCell|RefCell|Cell|Mutex|RwLock|AtomicU\w+|AtomicBool|thread_local!|static mut|UnsafeCell)\b', t):
+        cells.append(rel + ':' + mm.group(1))
+cells = sorted(set(cells))
+KNOWN_CELLS = sorted({'src/common/ruler.rs:OnceCell', 'src/parser/inline/mod.rs:OnceCell', 'src/plugins/cmark/block/fence.rs:Cell', 'src/generics/inline/code_pair.rs:RefCell'})
+expect('purity.interior_mutability', ['C07', 'C19'], cells == KNOWN_CELLS, 'interior-mutable items found: %r (modelled: %r)' % (cells, KNOWN_CELLS))
+defs.append('def interiorMutable : List String := [' + ', '.join('"%s"' % c for c in cells) + ']')
+
+# ------------------------------------------------------------------ cache resets (C08)
+ruler = src('src/common/ruler.rs')
+anchor('ruler.add_resets', ['C08', 'C07'], r'pub fn add\(&mut self, mark: M, value: T\) -> &mut RuleItem<M, T> \{\s*self\.compiled = OnceCell::new\(\);', ruler)
+anchor('ruler.remove_resets', ['C08', 'C07'], r'pub fn remove\(&mut self, mark: M\) \{\s*self\.compiled = OnceCell::new\(\);', ruler)
+anchor('inline.add_rule_resets', ['C08', 'C07'], r'pub fn add_rule<T: InlineRule>\(&mut self\) -> RuleBuilder<RuleFn> \{\s*self\.text_impl = OnceCell::new\(\);', inl)
+anchor('inline.remove_rule_resets', ['C08', 'C07'], r'pub fn remove_rule<T: InlineRule>\(&mut self\) \{\s*self\.text_impl = OnceCell::new\(\);', inl)
+
+# ------------------------------------------------------------------ output
 text = ('/- GENERATED by extract/extract.py from /repo source on every run — do not edit. -/\n'
         'namespace MdIt.Gen.Consts\n\n' + '\n\n'.join(defs) + '\n\nend MdIt.Gen.Consts\n')
 os.makedirs(os.path.dirname(OUT), exist_ok=True)
 old = open(OUT).read() if os.path.exists(OUT) else None
 if old != text:
     open(OUT, 'w').write(text)
-    print('extract: Gen/Consts.lean rewritten (%d definitions)' % len(defs))
-else:
-    print('extract: Gen/Consts.lean unchanged (%d definitions)' % len(defs))
+os.makedirs(os.path.dirname(STATUS), exist_ok=True)
+json.dump(status, open(STATUS, 'w'), indent=1)
+bad = [s for s in status if not s['ok']]
+for b in bad:
+    print('TIE-BROKEN %s (%s): %s' % (b['anchor'], ','.join(b['props']), b['detail']))
+print('extract: %d anchors, %d broken; Gen/Consts.lean %s (%d definitions)' % (len(status), len(bad), 'rewritten' if old != text else 'unchanged', len(defs)))
